@@ -134,6 +134,7 @@ func checkTrace(exp *exec.Expect, evs []build.Event) []string {
 }
 
 func run(c *core.Child) {
+	runStaged(c)
 	type src struct{ m *model.Schema }
 	srcs := []src{{mutModel()}}
 	for i := 0; len(srcs) < c.Scale(4, 16) && i < 200; i++ {
